@@ -241,8 +241,22 @@ class VEnc(object):
 
     def controller(self, c):
         skin = c['kind'] == 'Skin'
+        if skin:
+            def src(s):
+                return 'Vnone' if s is None else self.n(self.atom(s))
+            extra = self.l([
+                self.n(c['geometry']['uid']), self.l([self.n(self.cls(k)) for k in c['bind_shape_matrix']]),
+                src(c['joint_source']), src(c['joint_matrix_source']), src(c['weight_source']), src(c['weight_joint_source']),
+                self.l([self.l([self.tok(nm), self.l([self.n(self.cls(k)) for k in m])]) for nm, m in c['joint_matrices']]),
+                self.l([self.n(self.cls(k)) for k in c['weights']]), self.l([self.tok(t) for t in c['weight_joints']]),
+                self.l([self.z(v) for v in c['vcounts']]), self.l([self.n(v) for v in c['offsets']]),
+                self.l([self.l([self.z(v) for v in r]) for r in c['joint_index']]),
+                self.l([self.l([self.z(v) for v in r]) for r in c['weight_index']])])
+        else:
+            extra = self.l([self.n(c['source_geometry']['uid']),
+                            self.l([self.l([self.n(g['uid']), self.n(self.cls(w))]) for g, w in c['targets']])])
         return self.l([self.n(c['uid']), self.aval(c['id']), self.n(self.atom('skin' if skin else 'morph')),
-                       self.sdict(c['sources']) if skin else 'Vnone'])
+                       self.sdict(c['sources']) if skin else 'Vnone', extra])
 
     def anim_tree(self, a):
         return self.l([self.n(a['uid']), self.aval_req(a['id']), self.aval_req(a['name']),
